@@ -83,8 +83,19 @@ def run(ctx):
                 if adt == "de_error::Error" and var == "DuplicateMappingKey" and f.dominates(arms["Error"], eb):
                     with f.deep():
                         loc = f.sym_operand(s_["rv"]["ops"][fl.index("location")])
-                    okl = sym_contains(loc, lambda x: x[0] == "call" and x[1] == "de::KeyNode::location")
-                    ctx.check(okl, "SIBLING", "C04:SIBLING:%s:Error:location" % kind, "the error is located at the repeated key node", "the duplicate-key error's location is `%s`, not the key node's location" % render(loc), config, ctx.where(f, eb))
+                    if live:
+                        # the repeated key as written in this mapping: the source's use-site location taken while the key is still
+                        # the peeked node (for `*k: v` that is the alias token; the captured node carries the anchor's position)
+                        rbs = []
+                        sym_contains(loc, lambda x: x[0] == "call" and last_seg(x[1]) == "reference_location" and rbs.append(x[3]) is None and False)
+                        caps = [c for c in captures if f.dominates(c, eb)]
+                        consuming = [x for x, xt in f.calls() if fx.callee(xt) in (SKIP, "de::capture_node") or (last_seg(fx.callee_decl(xt)) == "next" and "Events" in fx.callee_decl(xt))]
+                        okl = bool(rbs) and bool(caps) and all(any(f.dominates(rb, c) and not any(x != c and x != rb and f.dominates(rb, x) and f.dominates(x, c) for x in consuming) for c in caps) for rb in rbs)
+                        ctx.check(okl, "SIBLING", "C04:SIBLING:%s:Error:location" % kind, "the error is located where the repeated key is written (use-site location read before the key is captured)",
+                                  "the duplicate-key error's location is `%s`, not the use-site of the key read while it is the peeked node: for an aliased key `*k: v` the error points at the anchor's definition" % render(loc)[:120], config, ctx.where(f, eb))
+                    else:
+                        okl = sym_contains(loc, lambda x: x[0] == "call" and x[1] == "de::KeyNode::location")
+                        ctx.check(okl, "SIBLING", "C04:SIBLING:%s:Error:location" % kind, "the error is located at the repeated key node", "the duplicate-key error's location is `%s`, not the key node's location" % render(loc), config, ctx.where(f, eb))
             # FirstWins arm
             df = dup_edges(arms["FirstWins"])
             okF = bool(df)
@@ -109,6 +120,34 @@ def run(ctx):
             own = [x for x in dl if f.dominates(arms["LastWins"], x[0]) and not f.dominates(arms["Error"], x[0]) and not f.dominates(arms["FirstWins"], x[0])]
             ctx.check(not [x for x in own if arms["LastWins"] not in (arms["Error"], arms["FirstWins"])], "SIBLING", "C04:SIBLING:%s:LastWins" % kind, "LastWins delivers every entry (no duplicate test on its arm)", "policy LastWins (%s path) now tests for duplicates" % kind, config, where)
             ctx.check(len({arms["Error"], arms["FirstWins"], arms["LastWins"]}) == 3, "SIBLING", "C04:SIBLING:%s:distinct-arms" % kind, "three distinct policy arms", "two policies share one arm", config, where)
+        # a duplicate is dropped silently only while flushing merges or under FirstWins: every edge "already seen" that can get back
+        # to the next entry without an error and without delivering is controlled by one of those two tests
+        flush_edges = []
+        for bb, sym, tt, ff in bool_switches(f):
+            r = render(sym)
+            if r.endswith("flushing_merges"):
+                flush_edges.append((bb, tt))
+            elif r.endswith("flushing_merges)") and r.startswith("Not("):
+                flush_edges.append((bb, ff))
+        nd = 0
+        for bb, sym, tt, ff in bool_switches(f):
+            with f.deep():
+                d = f.sym_operand(f.blocks[bb]["term"]["o"])
+            neg = False
+            while d[0] == "un" and d[1] == "Not":
+                d, neg = d[2], not neg
+            if not (d[0] == "call" and last_seg(d[1]) == "contains" and "self.seen" in render(d)):
+                continue
+            dupe = ff if neg else tt
+            reach = f.reachable([dupe], avoid=list(delivered) + list(dup_err))
+            if not (set(loop_heads) & reach):
+                continue  # this duplicate edge never drops silently
+            nd += 1
+            ctl = any(f.edge_dominates(fb, ft, bb) for fb, ft in flush_edges) or any(f.dominates(arms["FirstWins"], bb) and arms["FirstWins"] not in (arms["Error"], arms["LastWins"]) for sb, arms in sites)
+            ctx.check(ctl, "SIBLING", "C04:SIBLING:silent-drop-only-flushing-or-FirstWins#%d" % nd,
+                      "an already-seen key is dropped silently only while flushing merges or under FirstWins",
+                      "next_key_seed drops an already-seen key silently on a path controlled neither by `flushing_merges` nor by the FirstWins arm: under LastWins the later entry is lost, under Error nothing is reported", config, ctx.where(f, bb))
+        ctx.floor("SIBLING.silent-drops", nd, 2, config)
         # seen.insert dominates every delivered key
         inserts = [b for b, t in f.calls() if last_seg(fx.callee(t)) == "insert" and render(f.sym_operand(t["args"][0])) == "self.seen"]
         for d in delivered:
